@@ -95,6 +95,13 @@ def monitor(cfg, r):
     for _, sid, t, c in begins:
         if t > 0 and not c > rr * (t - 1): bad.append(f'{sid} began its step for t={t} at {c}s, not after rt_factor*time_resolution*(t-1) = {rr * (t - 1)}s')
     instant = all(not s.get('duration') for s in cfg['sims'])
+    if instant:
+        # with instantly answering simulators a step for t begins inside its slot, or at most one polling period per
+        # simulator late (known finding F20 is "one polling period late"; anything beyond that is a different failure)
+        slack = rt * len(cfg['sims']) + 1e-9
+        for _, sid, t, c in begins:
+            if c > rr * t + slack:
+                bad.append(f'{sid} began its step for t={t} at {c}s, more than {len(cfg["sims"])} polling period(s) after its real-time slot {rr * t}s although every simulator answers instantly')
     expected_fail = cfg['strict'] and not instant
     if r['outcome'] == 'HANG': bad.append('run() did not terminate')
     elif r['outcome'] != 'returned' and not (expected_fail and r['outcome'].startswith('RuntimeError')):
@@ -124,6 +131,11 @@ def configs(tier, rng):
                 out.append(dict(rt=rt, res=res, until=4, strict=strict, sims=[{'group': True}, {}], connect=[(0, 1)]))    # grouped (F15)
                 out.append(dict(rt=rt, res=res, until=6, strict=strict, sims=[{}, {'typ': 'event-based', 'self_steps': False, 'events': {'0': [3, 6, 9]}}], connect=[]))
                 out.append(dict(rt=rt, res=res, until=6, strict=strict, sims=[{'group': True, 'typ': 'event-based', 'self_steps': False, 'events': {'0': [2, 4]}}, {}], connect=[]))
+    for rt in rts:
+        # an idle simulator with a far-away next step next to one that receives external events
+        out.append(dict(rt=rt, res=1.0, until=12, strict=False, sims=[{'typ': 'event-based', 'self_steps': False, 'events': {'0': [4]}}, {'step_size': 8}], connect=[(0, 1)]))
+        out.append(dict(rt=rt, res=1.0, until=12, strict=False, sims=[{'typ': 'event-based', 'self_steps': False, 'events': {'0': [3, 5]}}, {'step_size': 6}, {'step_size': 11}], connect=[(0, 1), (0, 2)]))
+        out.append(dict(rt=rt, res=1.0, until=10, strict=False, sims=[{'step_size': 3}, {'step_size': 7}], connect=[(0, 1)]))
     for rt in rts:
         out.append(dict(rt=rt, res=1.0, until=4, strict=False, sims=[{'duration': rt * 1.5}, {}], connect=[(0, 1)]))     # genuinely slow
         out.append(dict(rt=rt, res=1.0, until=4, strict=True, sims=[{'duration': rt * 1.5}, {}], connect=[(0, 1)]))
